@@ -193,12 +193,8 @@ func runC04Enum(src sim.Source, o Opts, res *Result) {
 						t0fail = fmt.Sprintf("after op %d a Snapshot() of the transaction does not show its writes so far: %s", i, d)
 						return
 					}
-					if _, err := sn.Handle("GET", "/zz/snapshot", world.Handler(0)); !errors.Is(err, fox.ErrReadOnlyTxn) {
-						t0fail = fmt.Sprintf("Handle through a Snapshot() returned %v", err)
-					} else if _, err := sn.Delete("GET", pool[0].Raw); !errors.Is(err, fox.ErrReadOnlyTxn) {
-						t0fail = fmt.Sprintf("Delete through a Snapshot() returned %v", err)
-					} else if err := sn.Truncate(); !errors.Is(err, fox.ErrReadOnlyTxn) {
-						t0fail = fmt.Sprintf("Truncate through a Snapshot() returned %v", err)
+					if d := refusesEveryWrite(w, sn, pool); d != "" {
+						t0fail = "through a Snapshot(): " + d
 					}
 					if t0fail != "" {
 						return
@@ -252,12 +248,8 @@ func runC04Enum(src sim.Source, o Opts, res *Result) {
 			}
 			// a read-only transaction refuses writes without effect
 			ro := w.R.Txn(false)
-			if _, err := ro.Handle("GET", "/zz/readonly", world.Handler(0)); !errors.Is(err, fox.ErrReadOnlyTxn) {
-				t1fail = fmt.Sprintf("Handle on a read-only transaction returned %v", err)
-			} else if _, err := ro.Delete("GET", pool[0].Raw); !errors.Is(err, fox.ErrReadOnlyTxn) {
-				t1fail = fmt.Sprintf("Delete on a read-only transaction returned %v", err)
-			} else if err := ro.Truncate(); !errors.Is(err, fox.ErrReadOnlyTxn) {
-				t1fail = fmt.Sprintf("Truncate on a read-only transaction returned %v", err)
+			if d := refusesEveryWrite(w, ro, pool); d != "" {
+				t1fail = "on a read-only transaction: " + d
 			} else if _, err := ro.Handle("GET", "/zz/{", nil); !errors.Is(err, fox.ErrReadOnlyTxn) {
 				t1fail = fmt.Sprintf("Handle with invalid arguments on a read-only transaction returned %v, want ErrReadOnlyTxn", err)
 			} else if _, err := ro.Update("GET", "zz", nil); !errors.Is(err, fox.ErrReadOnlyTxn) {
@@ -365,6 +357,55 @@ func checkSettled(txn *fox.Txn, pool []*model.Pattern) string {
 	txn.Abort()
 	if txn.Snapshot() != nil {
 		return "Snapshot of a settled transaction is not nil"
+	}
+	return ""
+}
+
+// refusesEveryWrite calls every write method of a read-only transaction (a View/Txn(false) or a Snapshot) with valid
+// arguments - prebuilt routes included, on a registered and on an unregistered pattern - and wants ErrReadOnlyTxn each
+// time, without any effect on what the transaction shows.
+func refusesEveryWrite(w *world.World, ro *fox.Txn, pool []*model.Pattern) string {
+	regMethod, regPattern, regTag := "", "", 0
+	for m, rt := range ro.Iter().All() {
+		regMethod, regPattern, regTag = m, rt.Pattern(), world.TagOf(rt)
+		break
+	}
+	lenBefore := ro.Len()
+	type try struct {
+		what string
+		err  error
+	}
+	var tries []try
+	_, err := ro.Handle("GET", "/zz/readonly", world.Handler(0))
+	tries = append(tries, try{"Handle", err})
+	if rt, e := w.R.NewRoute("/zz/readonly", world.Handler(0)); e == nil {
+		tries = append(tries, try{"HandleRoute", ro.HandleRoute("GET", rt)})
+	}
+	_, err = ro.Delete("GET", pool[0].Raw)
+	tries = append(tries, try{"Delete", err})
+	if regPattern != "" {
+		_, err = ro.Update(regMethod, regPattern, world.Handler(0))
+		tries = append(tries, try{"Update of a registered route", err})
+		if rt, e := w.R.NewRoute(regPattern, world.Handler(0)); e == nil {
+			tries = append(tries, try{"UpdateRoute of a registered route", ro.UpdateRoute(regMethod, rt)})
+		}
+		_, err = ro.Delete(regMethod, regPattern)
+		tries = append(tries, try{"Delete of a registered route", err})
+		tries = append(tries, try{"Truncate(" + regMethod + ")", ro.Truncate(regMethod)})
+	}
+	tries = append(tries, try{"Truncate()", ro.Truncate()})
+	for _, t := range tries {
+		if !errors.Is(t.err, fox.ErrReadOnlyTxn) {
+			return fmt.Sprintf("%s returned %v, want ErrReadOnlyTxn", t.what, t.err)
+		}
+	}
+	if ro.Len() != lenBefore || ro.Has("GET", "/zz/readonly") {
+		return fmt.Sprintf("refused writes had an effect: Len %d -> %d, Has(/zz/readonly)=%v", lenBefore, ro.Len(), ro.Has("GET", "/zz/readonly"))
+	}
+	if regPattern != "" {
+		if rt := ro.Route(regMethod, regPattern); rt == nil || world.TagOf(rt) != regTag {
+			return fmt.Sprintf("refused writes had an effect: %s %s is now %v (was route #%d)", regMethod, regPattern, rt, regTag)
+		}
 	}
 	return ""
 }
